@@ -10,7 +10,7 @@ import (
 
 type failoverExpiredHandler func()
 
-type failoverHandler func(context.Context) *status.Status
+type failoverHandler func(context.Context, uint64) *status.Status
 
 // failover represents a resource that is controlled by a leader that can be
 // failed over to another broker, such as a stream partition or consumer group.
@@ -34,9 +34,10 @@ type failover interface {
 	// has expired.
 	OnExpired()
 
-	// Failover selects a new leader. It returns a Status if selecting a new
-	// leader fails.
-	Failover(context.Context) *status.Status
+	// Failover selects a new leader to replace the one with the given epoch,
+	// i.e. the leader the witnesses reported. It returns a Status if selecting
+	// a new leader fails.
+	Failover(ctx context.Context, epoch uint64) *status.Status
 }
 
 // failoverStatus tracks witnesses for a leader failover. Witnesses are
@@ -99,7 +100,7 @@ func (f *failoverStatus) report(ctx context.Context, witness string, epoch uint6
 		// leader, for which a new quorum has to report within the timeout.
 		f.witnesses = make(map[string]witnessReport)
 		f.mu.Unlock()
-		return f.failover.Failover(ctx)
+		return f.failover.Failover(ctx, epoch)
 	}
 
 	if f.timer != nil {
@@ -165,8 +166,8 @@ func (p *partitionFailover) OnExpired() {
 }
 
 // Failover selects a new leader.
-func (p *partitionFailover) Failover(ctx context.Context) *status.Status {
-	return p.onFailover(ctx)
+func (p *partitionFailover) Failover(ctx context.Context, epoch uint64) *status.Status {
+	return p.onFailover(ctx, epoch)
 }
 
 // groupFailover implements the failover interface for a consumer group
@@ -213,6 +214,6 @@ func (g *groupFailover) OnExpired() {
 }
 
 // Failover selects a new coordinator.
-func (g *groupFailover) Failover(ctx context.Context) *status.Status {
-	return g.onFailover(ctx)
+func (g *groupFailover) Failover(ctx context.Context, epoch uint64) *status.Status {
+	return g.onFailover(ctx, epoch)
 }
